@@ -41,15 +41,36 @@ def log(*a):
 
 # ------------------------------------------------------------------ build ---
 
+def modfile_args():
+    """VERIF_REPO=<dir> builds against a copy of the repository instead of /repo
+    (used for seeded-change tests and background sweeps); the registered checks
+    never set it."""
+    repo = os.environ.get("VERIF_REPO")
+    if not repo:
+        return []
+    repo = os.path.abspath(repo)
+    tag = hashlib.sha1(repo.encode()).hexdigest()[:10]
+    d = os.path.join(OUT, "altmod")
+    os.makedirs(d, exist_ok=True)
+    mod = os.path.join(d, "go-%s.mod" % tag)
+    with open(os.path.join(HARNESS, "go.mod")) as f:
+        text = f.read().replace("=> /repo", "=> " + repo)
+    with open(mod, "w") as f:
+        f.write(text)
+    shutil.copyfile(os.path.join(HARNESS, "go.sum"), os.path.join(d, "go-%s.sum" % tag))
+    return ["-modfile=" + mod]
+
+
 def build(kind, dest):
     """kind: vt | vt-race | rt | rt-race. Returns (path, seconds)."""
     t0 = time.time()
     os.makedirs(os.path.dirname(dest), exist_ok=True)
     race = ["-race"] if kind.endswith("-race") else []
+    mf = modfile_args()
     if kind.startswith("vt"):
-        cmd = [GO_V, "test", "-c", "-tags", "verif"] + race + ["-o", dest, "./vt"]
+        cmd = [GO_V, "test", "-c", "-tags", "verif"] + mf + race + ["-o", dest, "./vt"]
     else:
-        cmd = [GO_R, "build", "-tags", "verif"] + race + ["-o", dest, "./rt"]
+        cmd = [GO_R, "build", "-tags", "verif"] + mf + race + ["-o", dest, "./rt"]
     p = subprocess.run(cmd, cwd=HARNESS, env=ENV, stdout=subprocess.PIPE, stderr=subprocess.STDOUT, text=True)
     if p.returncode != 0:
         log("BUILD-FAILED kind=%s\n%s" % (kind, p.stdout[-4000:]))
@@ -174,14 +195,15 @@ def check(prop, tier):
     if plan is None:
         log("no plan for property", prop)
         return 2
-    workdir = os.path.join(OUT, "work", prop)
+    tagdir = ("-" + hashlib.sha1(os.environ["VERIF_REPO"].encode()).hexdigest()[:8]) if os.environ.get("VERIF_REPO") else ""
+    workdir = os.path.join(OUT, "work", prop + tagdir)
     shutil.rmtree(workdir, ignore_errors=True)
     os.makedirs(workdir, exist_ok=True)
     kinds = sorted(set(j.kind for j in plan["jobs"]))
     bins = {}
     tb = time.time()
     with cf.ThreadPoolExecutor(max_workers=4) as ex:
-        futs = {k: ex.submit(build, k, os.path.join(OUT, "bin", prop, k)) for k in kinds}
+        futs = {k: ex.submit(build, k, os.path.join(OUT, "bin", prop + tagdir, k)) for k in kinds}
         for k, f in futs.items():
             bins[k] = f.result()[0]
     build_s = time.time() - tb
@@ -326,8 +348,9 @@ def check(prop, tier):
         "wall_s": round(wall, 1),
         "violations": len(real),
     }
-    os.makedirs(os.path.join(VERIF, "evidence"), exist_ok=True)
-    with open(os.path.join(VERIF, "evidence", prop + ".json"), "w") as f:
+    evdir = os.path.join(VERIF, "evidence") if not os.environ.get("VERIF_REPO") else os.path.join(workdir, "evidence")
+    os.makedirs(evdir, exist_ok=True)
+    with open(os.path.join(evdir, prop + ".json"), "w") as f:
         json.dump(ev, f, indent=1, default=str)
         f.write("\n")
 
